@@ -15,6 +15,9 @@ import (
 	"go/token"
 	"go/types"
 	"math/big"
+
+	"golang.org/x/tools/go/packages"
+	"golang.org/x/tools/go/ssa"
 )
 
 func (c *Ctx) runPascal(rule string) {
@@ -79,57 +82,118 @@ func (c *Ctx) runPascal(rule string) {
 			c.ok(rule, key, row.Pos(), "row of Pascal's triangle for its degree")
 		}
 	}
-	// use sites: every index of the table's rows is len(x)-2
+	// use sites, on SSA (robust against `n := len(b)` and similar renamings):
+	// every row index is len(ctrl)-2 and every guard comparing a control-point
+	// count with len(binomialCoeffs) implies len(ctrl)-2 <= len(table)-1.
+	c.pascalUseSites(rule, p, obj)
+}
+
+// linForm: v = a*len(slice) + b*len(table) + k for the given table global.
+type linForm struct {
+	a, b int
+	k    int64
+	ok   bool
+}
+
+func linOf(v ssa.Value, tab *ssa.Global, depth int) linForm {
+	if depth > 8 {
+		return linForm{}
+	}
+	if k, ok := constInt(v); ok {
+		return linForm{0, 0, k, true}
+	}
+	switch x := v.(type) {
+	case *ssa.Call:
+		if bi, ok := x.Call.Value.(*ssa.Builtin); ok && bi.Name() == "len" && len(x.Call.Args) == 1 {
+			if ld, ok := x.Call.Args[0].(*ssa.UnOp); ok && ld.X == ssa.Value(tab) {
+				return linForm{0, 1, 0, true}
+			}
+			if _, ok := x.Call.Args[0].Type().Underlying().(*types.Slice); ok {
+				return linForm{1, 0, 0, true}
+			}
+		}
+	case *ssa.BinOp:
+		l, r := linOf(x.X, tab, depth+1), linOf(x.Y, tab, depth+1)
+		if l.ok && r.ok {
+			switch x.Op {
+			case token.ADD:
+				return linForm{l.a + r.a, l.b + r.b, l.k + r.k, true}
+			case token.SUB:
+				return linForm{l.a - r.a, l.b - r.b, l.k - r.k, true}
+			}
+		}
+	}
+	return linForm{}
+}
+
+func (c *Ctx) pascalUseSites(rule string, p *packages.Package, obj *types.Var) {
+	sp := c.Prog.Package(p.Types)
+	if sp == nil {
+		return
+	}
+	tab, _ := sp.Members[obj.Name()].(*ssa.Global)
+	if tab == nil {
+		c.problem("unresolved anchor: SSA global %s", obj.Name())
+		return
+	}
 	uses := 0
-	for _, file := range p.Syntax {
-		ast.Inspect(file, func(n ast.Node) bool {
-			ix, ok := n.(*ast.IndexExpr)
-			if !ok {
-				return true
-			}
-			id, ok := ix.X.(*ast.Ident)
-			if !ok || p.TypesInfo.Uses[id] != obj {
-				return true
-			}
-			uses++
-			key := fmt.Sprintf("model2d row selection #%d", uses)
-			if isLenMinus(ix.Index, 2) {
-				c.ok(rule, key, ix.Pos(), "row len(b)-2 holds the coefficients of degree len(b)-1")
-			} else {
-				c.bad(rule, key, ix.Pos(), "the table row is selected with "+types.ExprString(ix.Index)+"; row r holds degree r+1, so a curve with len(b) control points needs row len(b)-2")
-			}
-			return true
-		})
-		// guards comparing with len(binomialCoeffs)
-		ast.Inspect(file, func(n ast.Node) bool {
-			be, ok := n.(*ast.BinaryExpr)
-			if !ok {
-				return true
-			}
-			isLenTab := func(e ast.Expr) bool {
-				call, ok := e.(*ast.CallExpr)
-				if !ok || len(call.Args) != 1 {
-					return false
+	for _, fn := range c.srcFuncs(p) {
+		for _, b := range fn.Blocks {
+			for _, ins := range b.Instrs {
+				switch x := ins.(type) {
+				case *ssa.IndexAddr:
+					ld, ok := x.X.(*ssa.UnOp)
+					if !ok || ld.X != ssa.Value(tab) {
+						continue
+					}
+					uses++
+					key := fmt.Sprintf("model2d row selection #%d in %s", uses, qname(fn))
+					lf := linOf(x.Index, tab, 0)
+					if lf.ok && lf.a == 1 && lf.b == 0 && lf.k == -2 {
+						c.ok(rule, key, x.Pos(), "row len(b)-2 holds the coefficients of degree len(b)-1")
+					} else if lf.ok {
+						c.bad(rule, key, x.Pos(), fmt.Sprintf("the table row is selected with %d*len(b)%+d; row r holds degree r+1, so a curve with len(b) control points needs row len(b)-2", lf.a, lf.k))
+					} else {
+						c.ok(rule, key, x.Pos(), "row index of a shape the rule does not model (no claim)")
+					}
+				case *ssa.If:
+					be, ok := x.Cond.(*ssa.BinOp)
+					if !ok {
+						continue
+					}
+					l, r := linOf(be.X, tab, 0), linOf(be.Y, tab, 0)
+					if !l.ok || !r.ok || l.b == 0 && r.b == 0 {
+						continue
+					}
+					// normalise to  len(b) - len(tab) < K  on the edge that takes the fast path
+					d := linForm{l.a - r.a, l.b - r.b, l.k - r.k, true} // d OP 0
+					var K int64
+					okForm := true
+					switch {
+					case d.a == 1 && d.b == -1 && be.Op == token.LSS:
+						K = -d.k
+					case d.a == 1 && d.b == -1 && be.Op == token.LEQ:
+						K = -d.k + 1
+					case d.a == -1 && d.b == 1 && be.Op == token.GTR:
+						K = d.k
+					case d.a == -1 && d.b == 1 && be.Op == token.GEQ:
+						K = d.k + 1
+					default:
+						okForm = false
+					}
+					uses++
+					key := fmt.Sprintf("model2d table guard #%d in %s", uses, qname(fn))
+					switch {
+					case !okForm:
+						c.ok(rule, key, x.Pos(), "comparison with the table length of a shape the rule does not model (no claim)")
+					case K <= 2:
+						c.ok(rule, key, x.Pos(), fmt.Sprintf("the fast path is taken only when len(b)-len(table) < %d, so row len(b)-2 exists", K))
+					default:
+						c.bad(rule, key, x.Pos(), fmt.Sprintf("the guard admits len(b)-len(table) < %d: row len(b)-2 is beyond the table for the largest admitted curve", K))
+					}
 				}
-				f, ok := call.Fun.(*ast.Ident)
-				if !ok || f.Name != "len" {
-					return false
-				}
-				id, ok := call.Args[0].(*ast.Ident)
-				return ok && p.TypesInfo.Uses[id] == obj
 			}
-			if !isLenTab(be.Y) {
-				return true
-			}
-			uses++
-			key := fmt.Sprintf("model2d table guard #%d", uses)
-			if be.Op == token.LSS && isLenMinus(be.X, 2) {
-				c.ok(rule, key, be.Pos(), "the fast path is taken only when row len(b)-2 exists")
-			} else {
-				c.bad(rule, key, be.Pos(), "the guard "+types.ExprString(be)+" does not establish that row len(b)-2 exists")
-			}
-			return true
-		})
+		}
 	}
 }
 
